@@ -89,7 +89,7 @@ Fixpoint take (n : nat) (l : list N) : option (list N * list N) :=
   end.
 
 (* length l < n, without walking the whole list *)
-Fixpoint shorter (l : list N) (n : nat) : bool :=
+Fixpoint shorter (l : list N) (n : nat) {struct n} : bool :=
   match n with
   | O => false
   | S n' => match l with [] => true | _ :: r => shorter r n' end
